@@ -560,7 +560,7 @@ class _VersionIndependentUnmarshaller:
             else:
                 co_varnames = tuple()
 
-            if self.version_tuple >= (2, 0):
+            if self.version_tuple >= (2, 1):
                 co_freevars = self.r_object(bytes_for_s=bytes_for_s)
                 co_cellvars = self.r_object(bytes_for_s=bytes_for_s)
 
